@@ -14,6 +14,8 @@
  *   T s                 -> rc                                (is_tld)
  *   U tld s orc oa ob   -> rc idn_rc calls argok live        (is_utf8_domain)
  *   E m tld s orc oa ob -> rc idn_rc f4f6fd lpart domain calls argok live   (is_<m>_email)
+ *   K m tld s orc oa ob -> rc idn_rc f4f6fd            (the same address through the PUBLIC per-part validators,
+ *                                                      composed as property C01 describes)
  *   J m mask tld rc     -> ret errcode                       (eav_is_email over a stub callback returning rc)
  *   A op op ...         -> one token per op                  (façade history, see run_history)
  */
@@ -94,6 +96,48 @@ static void print_result (const eav_result_t *r)
 #else
     fputs ("~ ~", stdout);
 #endif
+}
+
+/* K lines: the decision obtained by composing the library's public per-part validators */
+static int compose (int m, const char *s, size_t n, int tld, int *f4, int *f6, int *fd, int *idn)
+{
+    const char *end = s + n, *at = NULL, *p;
+    int rc;
+    *f4 = *f6 = *fd = 0; *idn = 0;
+    if (n == 0) return -EEAV_EMAIL_EMPTY;
+    for (p = s; p < end; p++) if (*p == '@') at = p;            /* split at the LAST '@' */
+    if (at == NULL || at + 1 == end) return -EEAV_DOMAIN_EMPTY;
+    if (at - s > 64) return -EEAV_LPART_TOO_LONG;
+    switch (m) {
+    case 0: rc = is_822_local (s, at); break;
+    case 1: rc = is_5321_local (s, at); break;
+    case 2: rc = is_5322_local (s, at); break;
+    default: rc = is_6531_local (s, at); break;
+    }
+    if (rc != 0) return rc;
+    const char *d = at + 1;
+    if (*d != '[') {
+        if (m == 3) { rc = is_utf8_domain (idn, d, end, tld); if (rc >= 0) *fd = 1; return rc; }
+        rc = is_ascii_domain (d, end);
+        if (rc != 0) return rc;
+        *fd = 1;
+        if (!tld) return 0;
+        if (is_special_domain (d, end)) return 8;
+        const char *dot = NULL;
+        for (p = d; p < end; p++) if (*p == '.') dot = p;
+        if (dot == NULL) return -EEAV_DOMAIN_NOT_FQDN;
+        return is_tld (dot + 1, end);
+    }
+    if (end - d <= 8) return -EEAV_IPADDR_INVALID;
+    const char *br = NULL;
+    for (p = d; p < end; p++) if (*p == ']') br = p;
+    if (br == NULL) return -EEAV_IPADDR_BRACKET_UNPAIR;
+    if (br + 1 != end) return -EEAV_IPADDR_INVALID;
+    if (strncmp (d + 1, "IPv6:", 5) == 0) { if (!is_ipv6 (d + 6, br)) return -EEAV_IPADDR_INVALID; *f6 = 1; return 0; }
+    if (memchr (d + 1, ':', (size_t) (br - d - 1)) != NULL) { if (!is_ipv6 (d + 1, br)) return -EEAV_IPADDR_INVALID; *f6 = 1; return 0; }
+    if (!is_ipv4 (d + 1, br)) return -EEAV_IPADDR_INVALID;
+    *f4 = 1;
+    return 0;
 }
 
 /* stub callback for J lines */
@@ -210,9 +254,9 @@ int main (void)
         }
         else if (k == 'S') { size_t n = unhex (f[1], a_buf); printf ("%d\n", is_special_domain (a_buf, a_buf + n)); }
         else if (k == 'T') { size_t n = unhex (f[1], a_buf); printf ("%d\n", is_tld (a_buf, a_buf + n)); }
-        else if (k == 'U' || k == 'E') {
-            int off = k == 'E' ? 1 : 0;
-            int m = k == 'E' ? atoi (f[1]) : 3;
+        else if (k == 'U' || k == 'E' || k == 'K') {
+            int off = k != 'U' ? 1 : 0;
+            int m = k != 'U' ? atoi (f[1]) : 3;
             int tld = atoi (f[1 + off]);
             size_t n = unhex (f[2 + off], a_buf);
             o_rc = atoi (f[3 + off]); unhex (f[4 + off], b_buf); o_out = b_buf; o_buf = atoi (f[5 + off]);
@@ -223,6 +267,12 @@ int main (void)
                 o_expect = a_buf;
                 int rc = is_utf8_domain (&ir, a_buf, a_buf + n, tld);
                 printf ("%d %d %d %d %ld\n", rc, ir, idn_calls, idn_argok, n_alloc - n_free - base);
+            } else if (k == 'K') {
+                int f4, f6, fd, ir;
+                const char *at = strrchr (a_buf, '@');
+                o_expect = at ? at + 1 : NULL;
+                int rc = compose (m, a_buf, n, tld, &f4, &f6, &fd, &ir);
+                printf ("%d %d %d%d%d\n", rc, ir, f4, f6, fd);
             } else {
                 const char *at = strrchr (a_buf, '@');
                 o_expect = at ? at + 1 : NULL;
